@@ -232,12 +232,40 @@ pub fn score_bound() -> BoxedStrategy<Vec<u8>> {
 }
 
 pub fn pattern() -> BoxedStrategy<Vec<u8>> {
-    prop_oneof![
+    let fixed = prop_oneof![
         Just("*"), Just("k*"), Just("k?"), Just("k[0-2]"), Just("k[^0]"), Just("*a"), Just("{t}*"),
         Just("k0"), Just("nomatch*"), Just("?*"), Just("k[13]"), Just("*e*"),
     ]
-    .prop_map(|s| s.as_bytes().to_vec())
-    .boxed()
+    .prop_map(|s| s.as_bytes().to_vec());
+    // generated, well-formed globs over the alphabet of the key pool: 1..5 atoms out of
+    // literal / * / ? / [set] / [^set] / [a-b]; every combination of a class with a leading
+    // literal, a trailing star, a star in the middle ... occurs (a matcher with a shortcut for
+    // one shape of pattern must agree with the general one on all of them)
+    let lit = prop_oneof![
+        6 => Just(b'k'), 1 => Just(b'K'), 1 => Just(b'{'), 1 => Just(b't'), 1 => Just(b'}'), 1 => Just(b'a'),
+        1 => Just(b'b'), 1 => Just(b'e'), 1 => Just(b'y'), 1 => Just(b' '), 3 => (b'0'..=b'5'),
+    ];
+    let set = proptest::collection::vec(prop_oneof![4 => (b'0'..=b'5'), 1 => Just(b'k'), 1 => Just(b'a'), 1 => Just(b'b'), 1 => Just(b't')], 1..4);
+    let atom = prop_oneof![
+        5 => lit.prop_map(|c| vec![c]),
+        3 => Just(b"*".to_vec()),
+        2 => Just(b"?".to_vec()),
+        2 => set.clone().prop_map(|v| {
+            let mut o = vec![b'['];
+            o.extend(v);
+            o.push(b']');
+            o
+        }),
+        1 => set.prop_map(|v| {
+            let mut o = vec![b'[', b'^'];
+            o.extend(v);
+            o.push(b']');
+            o
+        }),
+        2 => (b'0'..=b'3', 0u8..3).prop_map(|(lo, d)| vec![b'[', lo, b'-', lo + d, b']']),
+    ];
+    let generated = proptest::collection::vec(atom, 1..6).prop_map(|v| v.concat());
+    prop_oneof![2 => fixed.boxed(), 3 => generated.boxed()].boxed()
 }
 
 fn b(s: &str) -> Vec<u8> {
